@@ -95,6 +95,19 @@ RetClause(s, e, used) ==
 
 CopyOf(s) == IF Buggy = "CopyForgets" THEN [list |-> s.list, toName |-> NoNames, names |-> {}]
              ELSE s
+\* CCodeMapper(cse_name_list=m.cse_name_list): the list holds (name, code string) pairs,
+\* so the constructed mapper can only RESERVE the names (repair b1a8afc: "names declared
+\* by their code strings, without a subexpression"); it is not one of the statement's
+\* copies and does not know which child a name stands for.  Its inherited entries are
+\* user-declared ones (mapped) whose child is an opaque token per name: a child the
+\* original had assigned may be assigned again there -- under a name that is still unique.
+Decl(name) == [t |-> "Decl", name |-> name]
+DeclOf(s) ==
+    [list |-> [i \in 1..Len(s.list) |->
+                  Entry(s.list[i].name, s.list[i].used, Decl(s.list[i].name), "", TRUE)],
+     toName |-> [c \in { Decl(s.list[i].name) : i \in 1..Len(s.list) } |-> c.name],
+     names |-> NamesOf(s)]
+CopyHow(s, how) == IF how = "ctor" /\ Buggy = "" THEN DeclOf(s) ELSE CopyOf(s)
 MappedEff(s, name, child) ==
     [list |-> Append(s.list, Entry(name, {}, child, "", TRUE)),
      toName |-> s.toName @@ (child :> name),
@@ -211,7 +224,7 @@ GensLeft == NGen(hist) < MaxGen
 Copy(m, how) ==
     /\ cur = 0 /\ Len(ms) < MaxMappers /\ GensLeft
     /\ Len(ms[m].list) > 0                    \* copying an empty table is a fresh mapper
-    /\ ms' = Append(ms, CopyOf(ms[m]))
+    /\ ms' = Append(ms, CopyHow(ms[m], how))
     /\ hist' = Append(hist, [op |-> "copy", m |-> m, how |-> how])
     /\ UNCHANGED << stack, cur >>
 
